@@ -19,6 +19,41 @@ CHECKS = {
         design="5 C10"),
 }
 
+CHECKS["C01"] = dict(
+    technique="Coq exact-arithmetic model of the clipping algorithm (extracted) as oracle + soundness theorems; differential correspondence per cell",
+    text="Every constructed cell of every generated input (8 families incl. lattices, co-spherical, walls, clusters; 1D/2D/3D; periodic or not; masks) is compared "
+         "with the cell the exact model computes by the same clipping algorithm over integers (volume, centroid, per-(neighbour,shift) face area and centroid, vertices "
+         "inside all exact half-spaces); the model's vertices are checked in exact arithmetic against all sites. Theorems (in progress) state that the model's planes are "
+         "bisectors/walls and that the model cell contains the nearest-generator region; completeness is partial (VerticesSpan hypothesis, DESIGN 5 C01).",
+    note="Partial: equality model cell = Voronoi cell is proved only in the superset direction; the converse is validated per run in exact arithmetic. "
+         "Rounding handled by tolerances (DESIGN 3.4, with a conditioning term for close generator pairs). Known findings K1/K2 suppress only their signatures.",
+    design="5 C01")
+CHECKS["C07"] = dict(
+    technique="Coq proofs on the structural model (face rule, masks) + exhaustive-mask differential run against the full build",
+    text="Theorems for all masks and all cell families: no face has an unselected left cell, the face list of well-formed cells joins no pair of generators twice without "
+         "shift and has no unshifted self face. Correspondence: all 2^n masks of small inputs and sampled masks of larger ones, 1D/2D/3D, periodic or not: selected cells "
+         "bitwise equal to the full build (volume, centroid, position, safety radius), same face sets (areas to rounding), zero unselected cells, mixed faces once with the "
+         "selected cell on the left.",
+    note="'A selected cell does not depend on the mask' is a statement about the implementation's per-cell function: it is tested bitwise, not proved.",
+    design="5 C07")
+CHECKS["C12"] = dict(
+    technique="Coq proofs (induction over the face list) on the structural model of finalize/neighbour_ids + differential run on the implementation's own metadata",
+    text="Kernel-checked for every face list, cell count and mask: offsets are prefix sums of counts, total = array length, array = concatenation of per-cell lists, "
+         "face_indices is the cell's slice, face i is listed exactly by its left cell and (iff unshifted with a right generator) its right cell, neighbour_ids yields the other "
+         "sides without duplicates and never the cell itself - for constructed and unconstructed cells. Tie: both routes (and the with-faces route) on all masks of small "
+         "inputs and sampled masks of larger ones; the arrays equal the extracted model evaluated on the implementation's plane metadata, and satisfy the property directly.",
+    note="The structural model takes the per-cell plane metadata (right, shift, validity, has-tetrahedron) from the implementation; well-formedness of that metadata "
+         "(distinct (neighbour, shift) keys per cell) is the theorem's hypothesis and is what C17 provides.",
+    design="5 C12")
+CHECKS["C13"] = dict(
+    technique="Coq proofs on the structural model (routes, integral lists) + bitwise differential run of both routes",
+    text="Theorems for any cell geometry and any integral: the integrator route equals the direct route; symmetric face integrals = non-symmetric ones filtered by the "
+         "'constructed lower-index unshifted neighbour' rule, order preserved; without unshifted self planes they coincide with the stored face list; per-cell data reaches "
+         "the cell with the same generator index under every mask. Tie: bitwise comparison of Voronoi::build* with Voronoi::from(&integrator), of VolumeCentroid/AreaCentroid "
+         "integrals with stored values in order, sym vs non-sym lists, with-faces variants to rounding, orders vs the extracted model.",
+    note="Bitwise equality of values is a property of the implementation's arithmetic and is tested, not proved; the proofs cover order, filtering and metadata.",
+    design="5 C13")
+
 NOT_YET = {}
 
 ALL = ["C%02d" % i for i in range(1, 21)]
@@ -51,6 +86,7 @@ def main():
             "enable": "RUSTFLAGS='--cfg meshless_voro_verif' cargo build (the harness crate in /verif/harness depends on /repo by path)",
             "baseline_off_cmd": "cd /repo && cargo test --workspace --no-fail-fast --offline",
             "source_commits": ["2ec7ecd"],
+            "fix_commits": ["09dfeb6", "acc62b6"],
             "add_only": True,
         },
         "engines": [{
